@@ -4,6 +4,19 @@ and writes mutants/RESULTS.md.   tools/run_mutants.py [name-substring ...]"""
 import os, sys, re, subprocess
 HERE = os.path.dirname(os.path.dirname(os.path.abspath(__file__)))
 extra = {'revert_fix_getevent_reference_detection': ['C04'], 'revert_fix_heter_queue_nonconst_ref_prototype': ['C14'], 'revert_fix_heter_include_forward_into_getevent': ['C14'], 'revert_fix_dispatch_eval_order': ['C04', 'C20'], 'revert_fix_uninit_queue_counters': ['C10', 'C20'], 'c02_freenode_clears_links': ['C02', 'C03'], 'c03_spinlock_unlock_noop': ['C03', 'C02']}
+# --no-suite: do not rebuild and rerun the repository's suite for every mutant (it takes minutes, and up to 15 when a mutant makes
+# the multi-threaded tests hang); the suite column is then carried over from the previous RESULTS.md (a mutant's effect on the
+# repository's own tests does not depend on /verif), "passes" for reverts of fixes (the tree before the fix passed the suite)
+no_suite = '--no-suite' in sys.argv
+sys.argv = [a for a in sys.argv if a != '--no-suite']
+old_suite = {}
+try:
+    for line in open(os.path.join(HERE, 'mutants', 'RESULTS.md')):
+        c = [x.strip() for x in line.split('|')]
+        if len(c) > 3 and c[1] and c[1] != 'mutant' and not c[1].startswith('-'):
+            old_suite[c[1]] = c[2]
+except IOError:
+    pass
 rows = []
 for f in sorted(os.listdir(os.path.join(HERE, 'mutants'))):
     if not f.endswith('.diff'): continue
@@ -12,9 +25,11 @@ for f in sorted(os.listdir(os.path.join(HERE, 'mutants'))):
     m = re.match(r'c(\d\d)_', name)
     ids = extra.get(name) or (['C' + m.group(1)] if m else [])
     if not ids: continue
-    p = subprocess.run([os.path.join(HERE, 'tools', 'try_patch.py'), os.path.join(HERE, 'mutants', f), '--suite'] + ids, stdout=subprocess.PIPE, stderr=subprocess.STDOUT, text=True)
+    p = subprocess.run([os.path.join(HERE, 'tools', 'try_patch.py'), os.path.join(HERE, 'mutants', f)] + ([] if no_suite else ['--suite']) + ids, stdout=subprocess.PIPE, stderr=subprocess.STDOUT, text=True)
     out = p.stdout
     suite = 'passes' if 'SUITE passes' in out else ('FAILS' if 'SUITE FAILS' in out else '?')
+    if no_suite:
+        suite = old_suite.get(name, 'passes (the tree before the fix)' if name.startswith('revert_') else '?')
     verdicts = re.findall(r'^(C\d\d) (DETECTED|MISSED|BROKEN\S*)', out, re.M)
     first = ''
     for l in out.splitlines():
